@@ -145,6 +145,64 @@ class IterText(Iter):
         return R.canon_pts(pts)
 
 
+class IterFrac(Op):
+    """Bounded recurrences whose exact interval has a fractional number of seconds (dyadic, so binary64 is exact):
+    n repetitions yield exactly n strictly increasing points, interval apart, the anchor included - also when
+    the interval is shorter than a second."""
+    prop = PROP
+    name = "riterfrac"
+    model = False
+
+    def gen(self, rng, tier, boost):
+        from fractions import Fraction
+        n = 250 * boost if tier == "quick" else 2500 * boost
+        for _ in range(n):
+            m = gens.mode(rng)
+            anchor = R.gen_anchor(rng, m)
+            anchor = T.tp_from_inst(m, T.inst(m, anchor), anchor[0], anchor[7], anchor[8])
+            eighths = rng.choice([1, 2, 3, 4, 5, 7, 9, 12, 20, 8 * 60 + 1, 8 * 3600 + 4])
+            reps = rng.choice([2, 3, 4, 5, 9])
+            yield (m, anchor, eighths, reps, rng.choice([3, 4]))
+
+    def line(self, a):
+        return "riterfrac %s %s %d/8 s x%d fmt%d" % (a[0], T.tp_str(a[1]), a[2], a[3], a[4])
+
+    def impl(self, a):
+        from fractions import Fraction
+        from metomi.isodatetime.data import TimeRecurrence, Duration
+        m, anchor, eighths, reps, fmt = a
+        set_mode(m)
+        d = Duration(seconds=eighths / 8.0)
+        p = T.mk_tp(anchor)
+        rec = TimeRecurrence(repetitions=reps, start_point=p, duration=d) if fmt == 3 else \
+            TimeRecurrence(repetitions=reps, duration=d, end_point=p)
+        pts = []
+        for q in rec:
+            pts.append(q)
+            if len(pts) > reps + 6:
+                break
+        # instants relative to the anchor, exactly
+        rel = []
+        for q in pts:
+            dd = q - p
+            rel.append(Fraction(dd.get_seconds()).limit_denominator(64))
+        return "%d %s" % (len(pts), " ".join(str(x) for x in rel))
+
+    def oracle(self, a, out):
+        from fractions import Fraction
+        m, anchor, eighths, reps, fmt = a
+        if out.startswith(("err", "EXC", "Timeout")):
+            return "%s failed: %s" % (self.line(a), out)
+        step = Fraction(eighths, 8)
+        want = [step * k for k in range(reps)] if fmt == 3 else [-step * (reps - 1 - k) for k in range(reps)]
+        exp = "%d %s" % (reps, " ".join(str(x) for x in want))
+        if out != exp:
+            return "%s: yields (count, offsets from the anchor in s) %s; the series is %s" % (self.line(a), out, exp)
+
+    def label(self, a):
+        return "riterfrac/%s/fmt%d/%s" % (a[0], a[4], "sub-second" if a[2] < 8 else "fractional")
+
+
 def defect_series(m, info, k):
     """What the recorded defect F5 produces: the far bound is derived by ONE addition of the
     interval multiplied by (n - 1); the points are then repeated additions from the near end while
@@ -263,4 +321,4 @@ def ops():
     import common
     common.foreign_configurations()
     import recmm
-    return [Iter(), IterText(), Notations(), Mk(), recmm.RecMMOp(PROP, "mmiter", ["mmrmk", "mmriter", "mmriter", "mmriter"], 500)]
+    return [Iter(), IterText(), IterFrac(), Notations(), Mk(), recmm.RecMMOp(PROP, "mmiter", ["mmrmk", "mmriter", "mmriter", "mmriter"], 500)]
